@@ -1,6 +1,5 @@
 PROP = dict(
     id="C20",
-    disabled=True,
     engines=["c20"],
     go_tags=["c20"],
     gen_files={"MM/Gen/C20.lean": "c20"},
